@@ -402,7 +402,27 @@ def run_case(concepts, case, spec):
     if sl.n == 2:
         COL.count('two_concept_lattices')
     g = call(lat.graphviz)
-    call(lat.graphviz, make_object_label=Recorder('O'), make_property_label=Recorder('P'))
+    if g is not RAISED:
+        # the returned Digraph is the caller's to customise (highlight a node, add an edge, drop lines):
+        # the next export of the same lattice is a fresh drawing all the same
+        try:
+            g.node('c0', color='red', label='edited')
+            g.edge('c0', 'c%d' % (sl.n - 1), style='dashed')
+            g.attr('node', shape='box')
+            if len(g.body) > 3:
+                del g.body[1]
+                g.body.reverse()
+        except Exception:
+            COL.count('returned_digraph_not_editable')
+        COL.count('returned_digraph_edited_before_next_export')
+        call(lat.graphviz)
+    g2 = call(lat.graphviz, make_object_label=Recorder('O'), make_property_label=Recorder('P'))
+    if g2 is not RAISED:
+        try:
+            g2.body.clear()
+            g2.edge('c0', 'c0', headlabel='bogus')
+        except Exception:
+            pass
     # only one callback customised (the other keeps its default), and a second export of the
     # same lattice object with other callbacks
     call(lat.graphviz, make_object_label=Recorder('L', literal=True), make_property_label=Recorder('M', literal=True))
